@@ -204,6 +204,15 @@ func (r *runner) Exec(op string) (reply string, viol string) {
 		if r.mgr.WatchOnly() && (err == nil || !r.mgr.IsLocked()) {
 			v = append(v, "C04 key=watch-only.unlock-succeeds: Unlock succeeded on a watching-only manager")
 		}
+		// C04 (direct, model-independent): once unlocked, the script crypto key must be a real key — whatever the
+		// manager seals with it must not open under the publicly known all-zero secretbox key
+		if err == nil && !r.mgr.IsLocked() {
+			if ct, e := r.mgr.Encrypt(waddrmgr.CKTScript, []byte("c04-script-key-check")); e == nil {
+				if _, e := zeroKey.Decrypt(ct); e == nil {
+					v = append(v, "C04 key=cryptoKeyScript.zero-key-after-unlock: after Unlock the manager seals CKTScript data under the all-zero secretbox key (opens without any passphrase)")
+				}
+			}
+		}
 		return r.finish("ok", err, tap, v)
 	case "lock":
 		return r.finish("ok", r.mgr.Lock(), tap, v)
